@@ -156,8 +156,23 @@ class C18(Property):
     id = "C18"
     title = "Derived elements always reflect their parts"
     proof_module = "Proofs.C18"
-    theorems = []
-    generated_obligations = []
+    theorems = [
+        "Flatland.C18.Proofs.date_compose_spec",
+        "Flatland.C18.Proofs.date_explode",
+        "Flatland.C18.Proofs.joined_value",
+        "Flatland.C18.Proofs.joined_reset_partial",
+        "Flatland.C18.Proofs.settled_of_text",
+        "Flatland.C18.Proofs.C18_joined_reset_fails",
+        "Flatland.C18.Proofs.multivalue_first",
+        "Flatland.C18.Proofs.ref_proxy_partial",
+        "Flatland.C18.Proofs.C18_ref_fails",
+        "Flatland.Scalar.matchDate_fmt",
+    ]
+    generated_obligations = ["Flatland.C04.Proofs.pyTables_ok"]
+    level_text = "proof"
+    level_note = ("date_compose_spec/date_explode are full (every member value; ints beyond CPython's digit limit excluded); joined_reset is "
+                  "partial (SplitStable, NoEmptyTextUnderPrune; refuted in full by KF-C18-a) and ref_proxy is partial (RefSafe; refuted in "
+                  "full by KF-C18-b); joined_value / multivalue_first are definitional in the model and rest on the correspondence")
     trusted_base = [
         "the scalar model of C04 (CPython primitives re-implemented over regenerated tables; float/Decimal opaque)",
         "JoinedString separators: str.split for static separators, and the two regular expressions `\\s*,\\s*` and single-character "
